@@ -66,6 +66,24 @@ def corpus_histories() -> List[Dict[str, Any]]:
             # after every op like all others, but not judged by the family oracles (whose statements assume good histories)
             for k, h in (doc.get('tie_only') or {}).items():
                 out.append({'name': 'tieonly/' + os.path.relpath(p, core.VERIF) + '#' + k, 'history': h})
+            # overlapping requests, written compactly: named ops + templates, one history per listed pause point
+            for name, h in expand_race_templates(doc):
+                out.append({'name': os.path.relpath(p, core.VERIF) + '#' + name, 'history': h})
+    return out
+
+
+def expand_race_templates(doc: Dict[str, Any]):
+    """{"ops": {NAME: op}, "race_templates": [{"name", "prefix": [NAME..], "first": NAME, "second": NAME, "pauses": [k..], "suffix": [NAME..]}]}
+    -> (name-k<k>, prefix + [{"op":"race","first":..,"second":..,"pause":k}] + suffix) for every listed k."""
+    import copy
+    ops = doc.get('ops') or {}
+    out = []
+    for t in doc.get('race_templates') or []:
+        for k in t['pauses']:
+            h = [copy.deepcopy(ops[x]) for x in t.get('prefix', [])]
+            h.append({'op': 'race', 'first': copy.deepcopy(ops[t['first']]), 'second': copy.deepcopy(ops[t['second']]), 'pause': k})
+            h += [copy.deepcopy(ops[x]) for x in t.get('suffix', [])]
+            out.append((f"{t['name']}-k{k}", h))
     return out
 
 
@@ -73,7 +91,9 @@ def histories_for(ctx) -> List[Dict[str, Any]]:
     import gen
     hs = corpus_histories()
     n_rand = ctx.scale(40, 600)
-    for i, h in enumerate(gen.generate(ctx.seed, n_rand)):
+    # race mode: a few client requests per run are delivered twice, overlapping (op "race"; own random stream, so the histories are
+    # otherwise exactly those of the plain generator)
+    for i, h in enumerate(gen.generate(ctx.seed, n_rand, p_race=gen.P_RACE)):
         hs.append({'name': f'random:{ctx.seed}:{i}', 'history': h})
     n_mal = ctx.scale(10, 120)
     for i, h in enumerate(gen.generate_malformed(ctx.seed + 1, n_mal)):
